@@ -829,6 +829,138 @@ def c04c(chk):
         chk.ob("C04.c", "marginalize_axis=array.sum(axis)", ok, g.loc(), "one axis is removed by summing self.array along it")
 
 
+def _last_field(pl):
+    """name of the last struct field on the path of a place rooted in self (by reference or by value)"""
+    fl = [e[2] for e in pl[1] if e[0] == "field"]
+    return fl[-1] if fl and pl[0] == 1 else None
+
+
+def _into_shape_sequence(g):
+    """How RemovedAxis::into_shape puts the returned vector together, as a list of pieces of the inner sizes: ("to", k) = inner[..r+k],
+    ("from", k) = inner[r+k..], ("whole",) - with r = *self.removed.  Understood: X.to_vec() / X.iter().copied().collect() of a piece,
+    v.extend_from_slice(piece) / v.extend(piece.iter().copied()), a whole copy followed by v.remove(r).  None when something else happens."""
+    def removed_plus(op):
+        """k if the operand is *self.removed + k"""
+        l = op_local(op)
+        if l is None:
+            return None
+        k = 0
+        for _ in range(6):
+            r = g.copy_root(l)
+            d = g.single_def(r)
+            if d and d[0] == "assign" and d[3]["k"] == "use":
+                pl = op_place(d[3]["op"])
+                if pl is not None and len(pl[1]) == 1 and pl[1][0][0] == "field" and pl[1][0][1] == 0:
+                    d2 = g.single_def(pl[0])
+                    if d2 and d2[0] == "assign" and d2[3]["k"] == "binop" and d2[3]["op"].startswith("Add"):
+                        cl, cr = const_val(d2[3]["l"]), const_val(d2[3]["r"])
+                        if isinstance(cl, int) and not isinstance(cl, bool):
+                            k += cl
+                            l = op_local(d2[3]["r"])
+                            continue
+                        if isinstance(cr, int) and not isinstance(cr, bool):
+                            k += cr
+                            l = op_local(d2[3]["l"])
+                            continue
+                    return None
+                if pl is not None and pl[1] == (("deref",),):
+                    dd = g.single_def(g.copy_root(pl[0]))
+                    if dd and dd[0] == "call" and callee_name(dd[2]["callee"]).endswith("Deref>::deref") or (dd and dd[0] == "call" and callee_name(dd[2]["callee"]).split("::")[-1] == "deref"):
+                        tg = an.arg_pointee(g, dd[2], 0)
+                        if tg is not None and _last_field(tg) == "removed":
+                            return k
+                    return None
+            if d and d[0] == "call" and callee_name(d[2]["callee"]).split("::")[-1] == "deref":
+                tg = an.arg_pointee(g, d[2], 0)
+                return k if (tg is not None and _last_field(tg) == "removed") else None
+            return None
+        return None
+
+    def is_inner(op):
+        sl, info = g.slice_locals(op)
+        return ("sfs_core::array::shape::removed_axis::RemovedAxis", "inner") in info["fields"] and not [x for x in info["calls"] if callee_name(x[1]["callee"]).split("::")[-1] not in ("as_ref", "deref", "index", "borrow", "as_slice")]
+
+    def piece(op, depth=0):
+        """the piece of inner the slice operand denotes"""
+        l = op_local(op)
+        if l is None or depth > 8:
+            return None
+        r = g.copy_root(l)
+        tg = g.resolve_ptr(r)
+        if tg is not None and tg[0] != r and all(e == ("deref",) for e in tg[1]):
+            return piece({"k": "copy", "place": {"l": tg[0], "p": []}}, depth + 1)
+        d = g.single_def(r)
+        if d and d[0] == "call":
+            nm = callee_name(d[2]["callee"]).split("::")[-1]
+            if nm == "index" and len(d[2]["args"]) == 2:
+                rl = op_local(d[2]["args"][1])
+                rd = g.single_def(g.copy_root(rl)) if rl is not None else None
+                if rd and rd[0] == "assign" and rd[3]["k"] == "aggregate" and is_inner(d[2]["args"][0]):
+                    adt = rd[3].get("adt") or ""
+                    if adt.endswith("RangeTo") and len(rd[3]["ops"]) == 1:
+                        k = removed_plus(rd[3]["ops"][0])
+                        return ("to", k) if k is not None else None
+                    if adt.endswith("RangeFrom") and len(rd[3]["ops"]) == 1:
+                        k = removed_plus(rd[3]["ops"][0])
+                        return ("from", k) if k is not None else None
+                    if adt.endswith("RangeFull"):
+                        return ("whole",)
+                return None
+            if nm in ("as_ref", "deref", "as_slice", "borrow") and is_inner(d[2]["args"][0]):
+                return ("whole",)
+        if d and d[0] == "assign" and d[3]["k"] == "use":
+            pl = op_place(d[3]["op"])
+            # a component of the (before, after) tuple of an inlined helper
+            if pl is not None and len(pl[1]) == 1 and pl[1][0][0] == "field":
+                td = g.single_def(g.copy_root(pl[0]))
+                if td and td[0] == "assign" and td[3]["k"] == "aggregate" and td[3].get("akind") == "tuple":
+                    return piece(td[3]["ops"][pl[1][0][1]], depth + 1)
+        return None
+    # the vector returned inside Shape(..)
+    vec = None
+    for b, i, p_, rv, s_ in g.assigns():
+        if p_[0] == 0 and rv["k"] == "aggregate" and (rv.get("adt") or "").endswith("shape::Shape") and len(rv["ops"]) == 1:
+            l = op_local(rv["ops"][0])
+            vec = g.copy_root(l) if l is not None else None
+    if vec is None:
+        return None
+    d = g.single_def(vec)
+    seq = None
+    if d and d[0] == "call":
+        nm = callee_name(d[2]["callee"]).split("::")[-1]
+        if nm in ("to_vec", "to_owned", "clone", "from"):
+            p0 = piece(d[2]["args"][0])
+            if p0 is None and nm == "clone" and is_inner(d[2]["args"][0]):
+                p0 = ("whole",)
+            seq = [p0] if p0 is not None else None
+    if seq is None:
+        return None
+    # in-place edits of that vector, in control-flow order (the function is straight-line)
+    edits = []
+    for b, t in g.calls():
+        if not t["args"]:
+            continue
+        tg = g.resolve_ptr(op_local(t["args"][0])) if op_local(t["args"][0]) is not None else None
+        if not (tg is not None and tg[0] == vec and all(e == ("deref",) for e in tg[1])) or not g.local_ty(op_local(t["args"][0])).startswith("&mut"):
+            continue
+        edits.append((b, t))
+    edits.sort(key=lambda x: sum(1 for y in edits if g.dominates(y[0], x[0])))
+    for b, t in edits:
+        nm = callee_name(t["callee"]).split("::")[-1]
+        if nm == "extend_from_slice" and len(t["args"]) == 2:
+            p1 = piece(t["args"][1])
+            if p1 is None:
+                return None
+            seq.append(p1)
+        elif nm == "remove" and len(t["args"]) == 2 and seq == [("whole",)] and removed_plus(t["args"][1]) == 0:
+            seq = [("to", 0), ("from", 1)]
+        else:
+            return None
+    if list(g.switches()):
+        return None
+    return seq
+
+
 def c04d(chk):
     prog = chk.prog
     f = chk.fn(A + "Array::<f64>::sum")
@@ -901,7 +1033,14 @@ def c04d(chk):
     g = chk.fn(A + "shape::removed_axis::RemovedAxis::<'a, sfs_core::array::shape::Shape>::into_shape")
     if g is not None:
         names = [callee_name(t["callee"]).split("::")[-1] for b, t in g.calls()]
-        chk.ob("C04.d", "RemovedAxis::into_shape=iter().copied().collect()", names == ["iter", "copied", "collect"], g.loc(), "the remaining axes keep their order (calls %s)" % names)
+        ok_is = names == ["iter", "copied", "collect"] or names == ["iter", "cloned", "collect"]
+        how_is = "self.iter().copied().collect() (the order is RemovedAxis::iter's)"
+        if not ok_is:
+            r_ = _into_shape_sequence(g)
+            ok_is = r_ == [("to", 0), ("from", 1)]
+            how_is = "the vector is built as %s of the inner sizes (r = the removed axis)" % (
+                " ++ ".join({("to", 0): "[..r]", ("from", 1): "[r+1..]", ("whole",): "[..]"}.get(x, str(x)) for x in r_) if r_ else "an unrecognised sequence")
+        chk.ob("C04.d", "RemovedAxis::into_shape=iter().copied().collect()", ok_is, g.loc(), "the remaining axes keep their order: %s (calls %s)" % (how_is, names))
     h = chk.fn(A + "shape::removed_axis::RemovedAxis::<'a, T>::iter")
     if h is not None:
         idx = [(t["callee"].get("args") or ["", ""])[1] for b, t in h.calls() if callee_is(t["callee"], N.INDEX)]
